@@ -112,4 +112,25 @@ theorem toInt_not32 (a : BitVec 32) : (~~~a).toInt = -a.toInt - 1 := by
       rw [BitVec.toInt_eq_toNat_cond] at h1; split at h1 <;> omega
     rw [h1]; unfold Int.bmod; simp; omega
 
+theorem bintLength_lt {v : Int} {k : Nat} (hv : v ≠ 0) (h : JSem.bintLength v < k + 1) :
+    (v.natAbs : Int) < 2 ^ k := by
+  unfold JSem.bintLength at h
+  simp only [hv, if_false] at h
+  have hn : v.natAbs ≠ 0 := by omega
+  have : v.natAbs < 2 ^ k := (Nat.log2_lt hn).mp (by omega)
+  exact_mod_cast this
+
+theorem bint_literal_range (v p : Int) (h : JMap.bintLit v = .valueOf p) :
+    (v.natAbs : Int) < 2 ^ 31 := by
+  unfold JMap.bintLit at h
+  split at h
+  · exact absurd h (by simp)
+  · rename_i hv
+    split at h
+    · rename_i hl
+      have hb : JMap.bintLitBound ≤ 32 := by decide
+      have h1 : JSem.bintLength v < 31 + 1 := by omega
+      exact bintLength_lt hv h1
+    · exact absurd h (by simp)
+
 end AldorVerif.C12
